@@ -240,6 +240,8 @@ class SmtLibScript(object):
         if self.contains_command(smtcmd.PUSH) or \
            self.contains_command(smtcmd.POP):
             raise PysmtValueError("Was not expecting push-pop commands")
+        if self.contains_command(smtcmd.RESET_ASSERTIONS):
+            raise PysmtValueError("Was not expecting reset-assertions commands")
         if self.count_command_occurrences(smtcmd.CHECK_SAT) != 1:
             raise PysmtValueError("Was expecting exactly one check-sat command")
         _And = mgr.And if mgr else get_env().formula_manager.And
